@@ -118,17 +118,10 @@ def narrow(prog, g, leaf, member, rng, truth=True):
     return (lo, hi)
 
 
-def check(ctx, run):
-    prog = ctx.program()
-    run.assume("integer widths are those of the analysed target (LP64: int 32, long 64, long long 64)")
-    run.assume("usual arithmetic conversions are exactly the implicit casts clang recorded in the AST")
-    run.not_decided.append("string content comparison (SimpleString operator==, C13) and MemCmp semantics over all byte strings")
-    run.rule("R1", "PARTITION: every ordered pair of integer tags selects a comparing branch (no pair falls through to `different type => false`)", floor=36, exhaustive=True)
-    run.rule("R2", "TABLE: the union member read for a side is the member its tag was stored in (tag table extracted from the setValue overloads)", floor=36)
-    run.rule("R3", "the comparison selected for a tag pair, folded (helpers inlined) over the boundary values of both types and their 2^32/2^64 aliases, is true exactly when the two stored integers are mathematically equal", floor=36, exhaustive=True)
-    run.rule("R4", "getters: for every (getter, stored tag) the value is returned through value-preserving conversions of the tag's own member, or the path passes STRCMP_EQUAL(own tag, type) which fails the test", floor=36, exhaustive=True)
-    run.rule("R5", "non-integer kinds: different tags never compare equal; bool/pointer/function pointer compare their own members; double passes (this, other, this tolerance) to doubles_equal; buffers compare size before MemCmp with that size", floor=40)
-
+def integer_equality_rules(prog, run, rid1, rid2, rid3):
+    """R1-R3 (shared with C08): the comparison equals() selects for every ordered pair of integer tags, folded over
+    boundary values and 2^32/2^64 aliases, is true exactly for mathematically equal stored integers.
+    Returns (boundary, tab, eq, pname, returns_for) for the rules that build on it."""
     eq = prog.fn("MockNamedValue::equals")
     run.analysed(eq)
     pname = eq.params[0]["name"]
@@ -145,15 +138,6 @@ def check(ctx, run):
             else:
                 rets[-1] = None
         return list(rets.values())
-
-    def side_of(leaf):
-        r = render(eq, leaf)
-        if r.startswith("value_."):
-            return "this", r[len("value_."):]
-        if r.startswith(pname + ".value_."):
-            return "other", r[len(pname + ".value_."):]
-        return None, r
-
     # ---------------- R1/R2/R3 -------------------------------------------------
     def boundary(lo, hi):
         vs = set()
@@ -177,7 +161,7 @@ def check(ctx, run):
             inst = "%s vs %s" % (t1, t2)
             rets = returns_for(t1, t2)
             if len(rets) != 1 or rets[0] is None:
-                run.ob("R1", inst, eq.site, False, what="pair does not select a single return statement", witness=[render(eq, r) if r else None for r in rets])
+                run.ob(rid1, inst, eq.site, False, what="pair does not select a single return statement", witness=[render(eq, r) if r else None for r in rets])
                 continue
             E = eq.node(rets[0].get("value"))
             txt = render(eq, E)
@@ -206,22 +190,38 @@ def check(ctx, run):
             if foreign:
                 fm = re.search(r"value_\.(\w+)", foreign)
                 if fm and not const_value(eq, E) == 0:
-                    run.ob("R1", inst, eq.site, True, witness=txt)
-                    run.ob("R2", inst, eq.site, False, witness={"expr": txt, "members": {"this": m1, "other": m2}},
+                    run.ob(rid1, inst, eq.site, True, witness=txt)
+                    run.ob(rid2, inst, eq.site, False, witness={"expr": txt, "members": {"this": m1, "other": m2}},
                            what="the comparison reads %s; the tags store into value_.%s and %s.value_.%s" % (foreign, m1, pname, m2))
                 else:
                     run.broke("C09: the comparison selected for %s cannot be folded: %s (%s)" % (inst, foreign, txt))
                 continue
             if never_true:
-                run.ob("R1", inst, eq.site, False, witness=txt, what="no comparison of the two stored integers is selected for this type pair (falls through to %s)" % txt)
+                run.ob(rid1, inst, eq.site, False, witness=txt, what="no comparison of the two stored integers is selected for this type pair (falls through to %s)" % txt)
                 continue
-            run.ob("R1", inst, eq.site, True, witness=txt)
-            run.ob("R2", inst, eq.site, True, witness={"expr": txt, "members": {"this": m1, "other": m2}})
+            run.ob(rid1, inst, eq.site, True, witness=txt)
+            run.ob(rid2, inst, eq.site, True, witness={"expr": txt, "members": {"this": m1, "other": m2}})
             why = ""
             if wrong:
                 v1, v2, g = wrong
                 why = "stored %s %d and %s %d compare %s: a conversion on the way is not value-preserving (or a sign guard is missing / misplaced): different integers can compare equal" % (t1, v1, t2, v2, "equal" if g else "different")
-            run.ob("R3", inst, eq.site, not why, witness={"expr": txt, "pairs_folded": ncmp}, what=why)
+            run.ob(rid3, inst, eq.site, not why, witness={"expr": txt, "pairs_folded": ncmp}, what=why)
+
+    return boundary, tab, eq, pname, returns_for
+
+
+def check(ctx, run):
+    prog = ctx.program()
+    run.assume("integer widths are those of the analysed target (LP64: int 32, long 64, long long 64)")
+    run.assume("usual arithmetic conversions are exactly the implicit casts clang recorded in the AST")
+    run.not_decided.append("string content comparison (SimpleString operator==, C13) and MemCmp semantics over all byte strings")
+    run.rule("R1", "PARTITION: every ordered pair of integer tags selects a comparing branch (no pair falls through to `different type => false`)", floor=36, exhaustive=True)
+    run.rule("R2", "TABLE: the union member read for a side is the member its tag was stored in (tag table extracted from the setValue overloads)", floor=36)
+    run.rule("R3", "the comparison selected for a tag pair, folded (helpers inlined) over the boundary values of both types and their 2^32/2^64 aliases, is true exactly when the two stored integers are mathematically equal", floor=36, exhaustive=True)
+    run.rule("R4", "getters: for every (getter, stored tag) the value is returned through value-preserving conversions of the tag's own member, or the path passes STRCMP_EQUAL(own tag, type) which fails the test", floor=36, exhaustive=True)
+    run.rule("R5", "non-integer kinds: different tags never compare equal; bool/pointer/function pointer compare their own members; double passes (this, other, this tolerance) to doubles_equal; buffers compare size before MemCmp with that size", floor=40)
+
+    boundary, tab, eq, pname, returns_for = integer_equality_rules(prog, run, "R1", "R2", "R3")
 
     # ---------------- R5 ---------------------------------------------------------
     alltags = INT_TAGS + OTHER_TAGS + ["MyType"]
